@@ -56,6 +56,43 @@ S = {
  'zope': 'from zope.interface import Interface, Attribute, implementer, implements, classImplements, moduleProvides\nclass IX(Interface):\n    a = Attribute("doc")\n    b = Attribute()\n    def m(): "d"\n@implementer(IX, *more)\nclass x:\n    implements(IX)\nclassImplements(x, IX)\nclassImplements()\nclassImplements(nope, IX)\nmoduleProvides(IX)\n@implementer\nclass y: pass',
  'zope-schema': 'from zope import schema, interface\nclass IX(interface.Interface):\n    t = schema.TextLine(description="d")\n    u = schema.Int(description=1)',
  'attrs': 'import attr\n@attr.s(auto_attribs=True)\nclass x:\n    a: int = 1\n    b = attr.ib(default=2, type=int)\n    c = attr.ib(factory=list)\n@attr.s(auto_attribs=nope)\nclass y:\n    a = attr.ib(1, 2, 3)',
+
+ # ---- additions (build phase): more shortcuts of astbuilder / astutils / _pyval_repr / model
+ 'all-unhashable': '__all__ = [{[]: 1}]', 'docformat-unhashable': '__docformat__ = {[]: 1}', 'doc-assign-unhashable': 'def x(): pass\nx.__doc__ = {[]: 1}\nx.__doc__ = [1, *y]',
+ 'docformat-internal': '__docformat__ = "_types"\ndef x():\n    "doc"', 'docformat-doctest': '__docformat__ = "doctest"\ndef x():\n    "doc"', 'docformat-napoleon': '__docformat__ = "_napoleon"\ndef x():\n    "doc"',
+ 're-overflow': 'import re\nfrom typing import Final\nX: Final = re.compile("a{99999999999}")', 're-cond-group': 'import re\nfrom typing import Final\nX: Final = re.compile(r"(<)?(\\w+@\\w+(?:\\.\\w+)+)(?(1)>|$)")\nY: Final = re.compile("(?L)a")\nZ: Final = re.compile("(?au)a")',
+ 're-default': 'import re\ndef x(a=re.compile("(?(1)a|b)"), b=re.compile("a{99999999999}")): pass', 're-flags-odd': 'import re\nfrom typing import Final\nX: Final = re.compile("a", 99999, 1, 2)\nY: Final = re.compile(pattern="a", flags=re.X|re.S)\nZ: Final = re.compile(*a, **k)',
+ 'lambda-deep': 'x = ' + 'lambda: ' * 2500 + '0', 'paren-deep': 'x = ' + '(' * 250 + '1' + ')' * 250, 'call-chain-deep': 'x = f' + '()' * 2500, 'attr-chain-long': 'from typing import Final\nX: Final = a' + '.b' * 400,
+ 'subscript-deep': 'x: ' + 'List[' * 300 + 'int' + ']' * 300 + ' = 1', 'str-concat-long': 'from typing import Final\nX: Final = ' + ' + '.join(['"s"'] * 250), 'list-long': 'from typing import Final\nX: Final = [' + ', '.join(['1'] * 5000) + ']',
+ 'staticmethod-twice': 'class K:\n    def x(a): pass\n    x = staticmethod(x)\n    x = staticmethod(x)\n    def y(cls): pass\n    y = classmethod(y)\n    y = staticmethod(y)\n    z = staticmethod(nope)\n    x = classmethod(y)',
+ 'oldschool-odd': 'class K:\n    def x(a): pass\n    x = staticmethod(x, 1)\n    x = staticmethod()\n    w = classmethod(lambda c: 1)\n    x.y = staticmethod(x)\n    x, v = staticmethod(x), 1',
+ 'prop-odd': 'class K:\n    x = property(lambda s: 1)\n    @property\n    def y(self): pass\n    @y.getter\n    def y(self): pass\n    @z.setter\n    def y(self, v): pass\n    @y.setter\n    @y.deleter\n    def y(self): pass\n    y = 3',
+ 'class-in-class-dup': 'class x:\n    class x:\n        class x: pass\n        def x(self): pass\n    x = 1\nclass x(x.x): pass', 'func-attr': 'def x(): pass\nx.y = 1\nx.y.z = 2\nx.__doc__ = "d"\nx.__name__ = "n"',
+ 'typealias-odd': 'from typing import TypeAlias, TypeVar, Callable\nx: TypeAlias = "Callable[[int], (str]"\ny: TypeAlias\nz: TypeAlias = 1 if a else 2\nT = TypeVar(*a)\nU = TypeVar("U", bound="(")\nV = TypeVar()',
+ 'final-odd': 'import typing\nx: typing.Final\ny: typing.Final = ...\nz: typing.Final[typing.Final[int]] = 1\nclass K:\n    a: typing.Final = 1\n    def __init__(self):\n        self.b: typing.Final = 2\n        self.a = 3',
+ 'ann-exprs': 'x: 1 + 2 = 3\ny: [int, str] = 4\nz: (lambda: 0) = 5\nw: f"{a}" = 6\nv: (yield) = 7' , 'ann-assign-targets': 'x.y: int = 1\nx[0]: int = 2\n(z): int = 3',
+ 'aug-odd': 'x = [1]\nx += [2]\nx *= 2\n__all__ += ["a"]\n__all__ = ["b"]\n__all__ += nope\n__all__ -= ["b"]\n__all__ += ("c",)', 'all-extend': '__all__ = []\n__all__.extend(["x", 1])\n__all__.append("y")\n__all__.append(z)\n__all__.extend(*q)\n__all__ = __all__ + ["w"]\n__all__ = other.__all__ + ["v"]',
+ 'global-nonlocal': 'def x():\n    global y\n    y = 1\n    def z():\n        nonlocal y', 'decorated-class': '@d\n@e(1)\nclass x:\n    @d\n    class y: pass',
+ 'star-expr-assign': '*x, y = z\n[a, *b] = c\nx = *y, 1', 'dict-odd-const': 'from typing import Final\nX: Final = {**a, None: {1: {2: {3: [()]}}}}\nY: Final = {1, (2, 3), frozenset()}\nZ: Final = -(-(-1))',
+ 'numbers-odd': 'from typing import Final\nA: Final = 1e999\nB: Final = -1e999\nC: Final = 1e-999\nD: Final = 0xFFFFFFFFFFFFFFFFFFFFFFFF\nE: Final = 1_0.0_1e0_1j\nF: Final = 0o777\nG: Final = 0b1\nH: Final = 1 .real',
+ 'bytes-odd': 'from typing import Final\nA: Final = b"it\'s"\nB: Final = b"\\x00\\xff\\n"\nC: Final = b""\nD: Final = b"a" b"b"\nE: Final = rb"\\d"', 'str-odd': 'from typing import Final\nA: Final = "\\x00"\nB: Final = "\'\'\'"\nC: Final = "\\"\\"\\""\nD: Final = "a\\\\"\nE: Final = "\\N{BULLET}"\nF: Final = "\\r\\n\\t\\f\\v"',
+ 'unicode-idents': 'class Ünï:\n    def mé(self): "d"\nπ = 3\ndef ƒ(ß=π): pass', 'dunder-names': '__x__ = 1\n_y = 2\n__z = 3\nclass __K__:\n    __slots__ = ()\n    def __m(self): pass',
+ 'nested-func-class-deep': 'def x():\n' + ''.join('    ' * (i + 1) + f'class c{i}:\n' + '    ' * (i + 2) + f'def f{i}(self):\n' for i in range(0, 20, 2)) + '    ' * 21 + 'pass',
+ 'very-long-line': 'x = "' + 'a' * 100000 + '"', 'many-defs': '\n'.join(f'def f{i}(): "d{i}"' for i in range(400)), 'many-params': 'def x(' + ', '.join(f'p{i}=None' for i in range(300)) + '): pass',
+ 'many-bases': 'class y: pass\nclass x(' + ', '.join(f'b{i}' for i in range(100)) + '): pass', 'many-decorators': '\n'.join('@d%d' % i for i in range(100)) + '\ndef x(): pass',
+ 'zope-odd': 'from zope.interface import Interface, implementer, Attribute, provider, directlyProvides, alsoProvides\nclass IX(Interface): pass\nIY = InterfaceClass("IY")\n@implementer()\nclass a: pass\n@implementer(1, "s")\nclass b: pass\n@provider(IX)\nclass c: pass\nalsoProvides(c, IX)\nx = Attribute(1, 2, 3)\nclass IZ(IX, nope): pass',
+ 'attrs-odd': 'import attr, attrs\n@attr.s(auto_attribs=True, kw_only=1, init=nope)\nclass x:\n    a: int\n    b: "(" = attr.ib()\n    c = attr.ib(type="(")\n    d = attr.Factory(list)\n@attrs.define\nclass y:\n    a: int = attrs.field(default=1)\n@attr.s()\nclass z(x): pass',
+ 'deprecated-odd': 'from twisted.python.deprecate import deprecated, deprecatedProperty\nfrom incremental import Version\n@deprecated(Version("p", "NEXT", 0, 0))\ndef a(): pass\n@deprecated(Version("p", 1, 2, 3), replacement=a)\ndef b(): pass\n@deprecated(version=Version(package="p", major=1, minor=2, micro=3), replacement="x\\ry")\nclass c: pass\n@deprecated(Version("p", 1, 2))\ndef d(): pass\nclass K:\n    @deprecatedProperty(Version("p", 1, 2, 3))\n    def e(self): pass',
+ 'overload-odd': 'import typing as t\n@t.overload\n@staticmethod\ndef x(): ...\n@t.overload\nclass y: ...\n@t.overload\nasync def z(a): ...\nasync def z(a): pass\nclass K:\n    @t.overload\n    def m(self, a: int): ...\n    @t.overload\n    def m(self, a: str): ...\n    m = 1',
+ 'type-checking': 'from typing import TYPE_CHECKING\nif TYPE_CHECKING:\n    from nowhere import x\n    class y: pass\nelse:\n    x = None\nif not TYPE_CHECKING:\n    z = 1',
+ 'try-import-dup': 'class x:\n    def m(self): pass\ntry:\n    from ._speedups import x\nexcept ImportError:\n    pass\ntry:\n    import json as y\nexcept ImportError:\n    y = None\nelse:\n    y.z = 1',
+ 'walrus-scope': 'if (x := f()) and (y := x.z):\n    class w: pass\n[z := i for i in q]', 'match-class': 'match x:\n    case {"a": [1, *r], **kw} if r:\n        class y: pass\n    case C(a=1) | D():\n        import os as z',
+ 'type-stmt': 'type x = int', 'generic-def': 'def x[T: int, *Ts, **P](a: T) -> T: pass\nclass y[T]:\n    def m[U](self, a: U) -> T: pass', 'fstring-nested': 'from typing import Final\nX: Final = f"{a!r:>{w}} {f\'{b}\'} {{}} {c=}"\nY: Final = f"{x:{y:{z}}}"',
+ 'except-star-defs': 'try:\n    def x(): pass\nexcept* ValueError as e:\n    def y(): pass\nfinally:\n    class z: pass', 'async-comp': 'async def x():\n    y = [i async for i in z]\n    async with a as b, c as d:\n        pass\n    await e',
+ 'docstring-forms': 'def x():\n    "a" "b"\ndef y():\n    ("doc")\ndef z():\n    """doc""" + "x"\ndef w():\n    "doc" % 1\nclass v:\n    b"bytes"\nclass u:\n    f"f"\nclass t:\n    ...\n    "late"', 'module-doc-after-future': 'from __future__ import annotations\n"not a docstring"\nx = 1',
+ 'ivar-fields': 'class x:\n    """\n    @ivar a: doc\n    @type a: C{int}\n    @cvar a: again\n    @ivar: noname\n    @ivar b c: twonames\n    @type: nothing\n    @var x: selfname\n    """\n    a = 1', 'ivar-fields-rst': 'class x:\n    """\n    :ivar a: doc\n    :vartype a: int\n    :var a b: twonames\n    :type a:\n    :ivar:\n    """',
+ 'param-fields': 'def x(a, *b, c=1, **d):\n    """\n    @param a: one\n    @param a: twice\n    @param *b: star\n    @param **d: starstar\n    @param e: nope\n    @type nope: int\n    @keyword c: kw\n    @keyword z: kw2\n    @return:\n    @rtype:\n    @raise: noexc\n    @raises X Y: two\n    """',
+ 'cycle-alias': 'x = y\ny = x\nclass z(x): pass\nw = w', 'alias-to-import': 'import os.path as p\nq = p\nr = q.join\nclass s(q.nope): pass\nt = s.mro', 'self-import': 'import pk\nfrom pk import m0\nfrom . import m0 as again\nfrom .m0 import *\nx = pk.m0.x',
 }
 
 
